@@ -31,7 +31,8 @@ type c26Cred struct {
 }
 
 type c26Conn struct {
-	Snap        string `json:"snap"`
+	Snap        string `json:"snap"` // plug side (instance name)
+	Slot        string `json:"slot"` // slot side (instance name)
 	Iface       string `json:"iface"`
 	Undesired   bool   `json:"undesired"`
 	HotplugGone bool   `json:"hotplug_gone"`
@@ -77,6 +78,7 @@ var c26PkActions = []string{polkitActionLogin, polkitActionManage, polkitActionM
 
 const (
 	c26Snap      = "some-snap"
+	c26InstSnap  = "some-snap_dev" // a parallel instance of the same snap
 	c26OtherSnap = "other-snap"
 	c26SnapPid   = 42
 	c26PlainPid  = 1001
@@ -180,20 +182,20 @@ func c26ConnMode(mode int) []c26Conn {
 	case 0:
 		return nil
 	case 1: // everything the gated endpoints ask for, actively connected by the calling snap
-		return []c26Conn{{c26Snap, "snap-refresh-observe", false, false}, {c26Snap, "snap-themes-control", false, false},
-			{c26Snap, "snap-interfaces-requests-control", false, false}}
+		return []c26Conn{{c26Snap, "core", "snap-refresh-observe", false, false}, {c26Snap, "core", "snap-themes-control", false, false},
+			{c26Snap, "core", "snap-interfaces-requests-control", false, false}}
 	case 2: // only inactive or foreign connections
-		return []c26Conn{{c26Snap, "snap-refresh-observe", true, false}, {c26Snap, "snap-themes-control", false, true},
-			{c26OtherSnap, "snap-interfaces-requests-control", false, false}, {c26OtherSnap, "snap-refresh-observe", false, false},
-			{c26Snap, "network", false, false}}
+		return []c26Conn{{c26Snap, "core", "snap-refresh-observe", true, false}, {c26Snap, "core", "snap-themes-control", false, true},
+			{c26OtherSnap, "core", "snap-interfaces-requests-control", false, false}, {c26OtherSnap, "core", "snap-refresh-observe", false, false},
+			{c26Snap, "core", "network", false, false}}
 	case 3:
-		return []c26Conn{{c26Snap, "snap-refresh-observe", false, false}, {c26Snap, "snap-refresh-observe", true, false}}
+		return []c26Conn{{c26Snap, "core", "snap-refresh-observe", false, false}, {c26Snap, "core", "snap-refresh-observe", true, false}}
 	case 4:
-		return []c26Conn{{c26Snap, "snap-themes-control", false, false}, {c26OtherSnap, "snap-refresh-observe", false, false}}
+		return []c26Conn{{c26Snap, "core", "snap-themes-control", false, false}, {c26OtherSnap, "core", "snap-refresh-observe", false, false}}
 	case 5:
-		return []c26Conn{{c26Snap, "snap-interfaces-requests-control", false, false}, {c26Snap, "snap-refresh-control", false, false}}
+		return []c26Conn{{c26Snap, "core", "snap-interfaces-requests-control", false, false}, {c26Snap, "core", "snap-refresh-control", false, false}}
 	}
-	return []c26Conn{{c26Snap, "snap-refresh-control", false, false}, {c26Snap, "network", false, false}}
+	return []c26Conn{{c26Snap, "core", "snap-refresh-control", false, false}, {c26Snap, "core", "network", false, false}}
 }
 
 const c26ConnModes = 7
@@ -246,7 +248,10 @@ func c26Gen(r *vh.Rand, tier string, n int) []c26In {
 							}
 						}
 					}
-					for _, pc := range combos {
+					for ci, pc := range combos {
+						if !thorough && auth == "valid" && ci == 2 {
+							continue // quick: with a logged-in user the dismissed-polkit combination adds nothing
+						}
 						ins = append(ins, mk(ep, m, rm, auth, pc[0], pc[1], false))
 					}
 				}
@@ -266,6 +271,86 @@ func c26Gen(r *vh.Rand, tier string, n int) []c26In {
 				mk(ep, m, good[3], "notmacaroon", 0, 1, false))
 		}
 	}
+
+	// WHO-IS-CONNECTED block (exhaustive, both tiers). For every endpoint x verb whose checker is interface-gated, on
+	// the snap socket: every calling instance in {some-snap, some-snap_dev (parallel instance), other-snap, lookup
+	// fails} x every subset of {some-snap, some-snap_dev, other-snap} holding an active plug-side connection of a
+	// listed interface, plus single connections that must NOT count: caller only on the slot side, undesired,
+	// hotplug-gone, an interface whose name merely resembles a listed one (prefix, extension, other case), an unlisted
+	// interface, and the listed interface connected only by the other instance on the slot side of the caller.
+	callers := []string{c26Snap, c26InstSnap, c26OtherSnap, ""}
+	owners := []string{c26Snap, c26InstSnap, c26OtherSnap}
+	for ep, c := range api {
+		for _, m := range []string{"GET", "PUT", "POST"} {
+			reg := (m == "GET" && c.GET != nil) || (m == "PUT" && c.PUT != nil) || (m == "POST" && c.POST != nil)
+			if !reg {
+				continue
+			}
+			var listed []string
+			switch ac := c26Access(c, m).(type) {
+			case interfaceOpenAccess:
+				listed = ac.Interfaces
+			case interfaceAuthenticatedAccess:
+				listed = ac.Interfaces
+			default:
+				continue
+			}
+			var scenarios [][]c26Conn
+			for _, iface := range listed {
+				for mask := 0; mask < 1<<len(owners); mask++ {
+					var cs []c26Conn
+					for oi, o := range owners {
+						if mask&(1<<oi) != 0 {
+							cs = append(cs, c26Conn{Snap: o, Slot: "core", Iface: iface})
+						}
+					}
+					scenarios = append(scenarios, cs)
+				}
+				for _, who := range owners {
+					peerOf := map[string]string{c26Snap: c26InstSnap, c26InstSnap: c26Snap, c26OtherSnap: c26Snap}[who]
+					scenarios = append(scenarios,
+						[]c26Conn{{Snap: peerOf, Slot: who, Iface: iface}},                    // `who` is only the slot side
+						[]c26Conn{{Snap: "core", Slot: who, Iface: iface}},                    // the same, plugged by a third snap
+						[]c26Conn{{Snap: who, Slot: "core", Iface: iface, Undesired: true}},   // inactive
+						[]c26Conn{{Snap: who, Slot: "core", Iface: iface, HotplugGone: true}}, // inactive
+						[]c26Conn{{Snap: who, Slot: "core", Iface: iface, Undesired: true}, {Snap: peerOf, Slot: "core", Iface: iface}},
+						[]c26Conn{{Snap: who, Slot: "core", Iface: iface + "-extra"}},
+						[]c26Conn{{Snap: who, Slot: "core", Iface: iface[:len(iface)-1]}},
+						[]c26Conn{{Snap: who, Slot: "core", Iface: strings.ToUpper(iface)}},
+						[]c26Conn{{Snap: who, Slot: "core", Iface: "network"}},
+						[]c26Conn{{Snap: who + "x", Slot: "core", Iface: iface}, {Snap: "x" + who, Slot: "core", Iface: iface}},
+					)
+				}
+			}
+			for _, caller := range callers {
+				for _, cs := range scenarios {
+					for _, auth := range []string{"none", "valid"} {
+						if auth == "valid" && m == "GET" {
+							continue // interfaceOpenAccess ignores the user; the Auth variant (themes POST) gets both
+						}
+						in := c26In{Kind: "serve", Ep: ep, Path: c26Path(c), Method: m, Remote: c26RemoteStr(c26SnapPid, 1000, dirs.SnapSocket),
+							Creds: &c26Cred{c26SnapPid, 1000, dirs.SnapSocket}, Auth: auth, PkDefault: "yes", PkMode: 1, ConnMode: -1,
+							Conns: cs, SnapOfPid: caller}
+						ins = append(ins, in)
+					}
+				}
+			}
+		}
+	}
+	// POLKIT-ACTION block (exhaustive, both tiers): every registered endpoint x verb, plain user on the main socket
+	// without macaroon, polkit saying yes to exactly one action (or to the two configuration/interfaces ones): the
+	// endpoint must be reached only when its own action is the one granted.
+	for ep, c := range api {
+		for _, m := range []string{"GET", "PUT", "POST"} {
+			reg := (m == "GET" && c.GET != nil) || (m == "PUT" && c.PUT != nil) || (m == "POST" && c.POST != nil)
+			if !reg {
+				continue
+			}
+			for _, pm := range []int{4, 5, 6, 7} {
+				ins = append(ins, mk(ep, m, good[3], "none", pm, 0, false))
+			}
+		}
+	}
 	// random points of the wide product (all remotes x auth x all polkit modes x all conn modes x degraded, any verb)
 	if n == 0 {
 		n = 1500
@@ -275,7 +360,7 @@ func c26Gen(r *vh.Rand, tier string, n int) []c26In {
 		rm := all[r.Intn(len(all))]
 		in := mk(ep, r.Pick(c26Methods), rm, r.Pick([]string{"none", "valid", "garbage", "notmacaroon"}), r.Intn(c26PkModes), r.Intn(c26ConnModes), r.Chance(1, 10))
 		if rm.creds != nil && r.Chance(1, 8) { // a plain process that the cgroup lookup maps to a snap, and the reverse
-			in.SnapOfPid = r.Pick([]string{c26Snap, c26OtherSnap, ""})
+			in.SnapOfPid = r.Pick([]string{c26Snap, c26InstSnap, c26OtherSnap, ""})
 		}
 		ins = append(ins, in)
 	}
@@ -370,6 +455,19 @@ func c26CoqSocket(s string) string {
 	return vh.CoqBytes(s)
 }
 
+// well-known snap names are printed through the model's vocabulary constants (same bytes) to keep the terms small
+func c26CoqName(n string) string {
+	switch n {
+	case c26Snap:
+		return "drv_snap"
+	case c26OtherSnap:
+		return "drv_other"
+	case "core":
+		return "drv_core"
+	}
+	return vh.CoqBytes(n)
+}
+
 func c26CoqCred(c *c26Cred) string {
 	if c == nil {
 		return "None"
@@ -441,7 +539,11 @@ func c26Serve(in c26In) vh.Out {
 	// state: connections
 	conns := map[string]interface{}{}
 	for i, c := range in.Conns {
-		ref := fmt.Sprintf("%s:plug%d core:slot%d", c.Snap, i, i)
+		slot := c.Slot
+		if slot == "" {
+			slot = "core"
+		}
+		ref := fmt.Sprintf("%s:plug%d %s:slot%d", c.Snap, i, slot, i)
 		conns[ref] = map[string]interface{}{"interface": c.Iface, "undesired": c.Undesired, "hotplug-gone": c.HotplugGone}
 	}
 	st.Lock()
@@ -530,7 +632,11 @@ func c26Serve(in c26In) vh.Out {
 	}
 	var connItems []string
 	for _, c := range in.Conns {
-		connItems = append(connItems, "(mkConn "+vh.CoqBytes(c.Snap)+" "+vh.CoqBytes(c.Iface)+" "+vh.CoqBool(c.Undesired)+" "+vh.CoqBool(c.HotplugGone)+")")
+		slot := c.Slot
+		if slot == "" {
+			slot = "core"
+		}
+		connItems = append(connItems, "(mkConn "+c26CoqName(c.Snap)+" "+c26CoqName(slot)+" "+vh.CoqBytes(c.Iface)+" "+vh.CoqBool(c.Undesired)+" "+vh.CoqBool(c.HotplugGone)+")")
 	}
 	pkCoq := "(pk_table " + vh.CoqList(pkItems) + " " + c26CoqPk(in.PkDefault) + ")"
 	if in.PkMode >= 0 && in.PkMode < c26PkModes {
@@ -542,10 +648,7 @@ func c26Serve(in c26In) vh.Out {
 	if in.ConnMode >= 0 && in.ConnMode < c26ConnModes && fmt.Sprint(c26ConnMode(in.ConnMode)) == fmt.Sprint(in.Conns) {
 		connCoq = "(drv_conns " + vh.CoqNat(in.ConnMode) + ")"
 	}
-	snapCoq := vh.CoqOpt(in.SnapOfPid != "", vh.CoqBytes(in.SnapOfPid))
-	if in.SnapOfPid == c26Snap {
-		snapCoq = "(Some drv_snap)"
-	}
+	snapCoq := vh.CoqOpt(in.SnapOfPid != "", c26CoqName(in.SnapOfPid))
 	ctx := "(mkCtx " + vh.CoqBytes(in.Remote) + " " + vh.CoqBool(in.Auth == "valid") + " " + pkCoq + " " +
 		snapCoq + " " + connCoq + " " + vh.CoqBool(in.Degraded) + ")"
 	coq := "(CServe " + vh.CoqNat(in.Ep) + " " + vh.CoqBytes(c26Path(orig)) + " " + meth + " " + ctx + " " + c26CoqCred(in.Creds) + " " + c26CoqStrs(in.Pre) + " " + coqClass + " " +
